@@ -51,7 +51,17 @@ RULE = (
     "only); calls case = (1-3 writer objects from from_suffix for ONE file, a program of episodes: initialize() by one "
     "object followed by segments append_data...;finalize() by any objects | write(frame); checked after every "
     "episode; 15% free text programs judged against the model only); out-of-domain requests (chunk size 0, unknown "
-    "column) are compared with the model's rejections"
+    "column) are compared with the model's rejections; "
+    "third pass: shared case = (1-2 in-memory frames the caller keeps, 1-3 reader objects over them: plain / renamed "
+    "(half of the maps permute old names) / computed column / joined with the other frame or a file / nested, a "
+    "program of 3-7 calls get_column_names | read | chunk iterator on these objects, columns=None in 45% of the "
+    "requests): every call is judged against the table the reader denotes over the frames as handed in, the caller's "
+    "frames are compared with pristine copies and the files byte for byte afterwards, and observations, object "
+    "identity of read()'s result and final frames are compared with the model (op tab-uses); non-trivial = a whole "
+    "read followed by at least one more call; columns=None is generated for computed-column readers too (a refusal "
+    "is the spec violation computed-reader-columns-none — found in this pass, repaired in /repo c6f4cd0; the model "
+    "computedp of the repaired class is wired when the code under test accepts None, computed otherwise); text files read with text_columns= (45% of the text fixtures with a string column) "
+    "hold numeric-looking spellings (007, 1.50, 1e5, True, inf) in those columns"
 )
 
 # values that survive pandas' CSV type inference unchanged (everything else is excluded and listed in the evidence)
@@ -63,6 +73,9 @@ CSV_EXCLUDED = [
     "", "NA", "N/A", "NaN", "nan", "null", "NULL", "None", "n/a", "#N/A", "<NA>", "-nan", "1", "1.5", "1e5", "inf",
     "True", "False", "true", "FALSE", "line\nbreak", "cr\rx",
 ]
+# third pass: cells of columns read with `text_columns=` (CSVFileReader / from_path, tabular_data.py:196-208): the
+# column is parsed as text, so numeric-looking spellings must come back as they are, from every chunk
+TEXT_COL_STR = CSV_SAFE_STR + ["1", "007", "1.50", "1e5", "-0", "True", "false", "inf", "0x1F", "1_000", "+3", " 7"]
 WIDE_STR = CSV_SAFE_STR + ["", "NA", "nan", "None", "1", "1.5", "True", "line\nbreak"]
 NAME_POOL = ["a", "b", "score", "Spec Id", "x y", "É", "c1", "target", "peptide", "q-value", "d", "e_f",
              # second pass: names that look like a number / contain a separator character
@@ -208,6 +221,16 @@ def gen_base(rng, kind, names, n, index=None, allow_pidx=False):
     if kind == "csv":
         node["suffix"] = rng.choice([".csv", ".pin", ".tab", ".psms", ".peptides", ".weird"])
         node["sep"] = rng.choice(SEPS)
+        strs = [k for k, t in enumerate(types) if t == "str"]
+        if strs and rng.random() < 0.45:
+            # third pass: identifier columns declared as text (`text_columns=`): numeric-looking spellings
+            tc = rng.sample(strs, rng.randint(1, len(strs)))
+            node["text_cols"] = [names[k] for k in tc]
+            for r in rows:
+                for k in tc:
+                    r[k] = rng.choice(TEXT_COL_STR)
+            if rng.random() < 0.2:
+                node["text_cols"].append("not-a-column")
     return node
 
 
@@ -243,8 +266,31 @@ def table_of(node):
     raise AssertionError(t)
 
 
-def build_reader(node, work):
-    """the real mokapot reader for a tree"""
+_NONE_OK = None
+
+
+def computed_none_ok():
+    """does ComputedTabularDataReader accept columns=None?  (third pass: it raised until /repo c6f4cd0 — finding
+    `computed-reader-columns-none`, FINDING-C13.md; the Lean model has both the class as it is, `computedReaderP`, and
+    as it was, `computedReader`; the harness wires the one the code under test behaves like, judged once per run, and
+    a refusal of columns=None is a spec violation in either case)"""
+    global _NONE_OK
+    if _NONE_OK is None:
+        from mokapot.streaming import ComputedTabularDataReader
+        from mokapot.tabular_data import DataFrameReader
+        try:
+            with warnings.catch_warnings():
+                warnings.simplefilter("ignore")
+                ComputedTabularDataReader(DataFrameReader(pd.DataFrame({"a": [1, 2]})), "k", np.dtype("int64"),
+                                          lambda df: np.zeros(len(df), dtype="int64")).read()
+            _NONE_OK = True
+        except Exception:
+            _NONE_OK = False
+    return _NONE_OK
+
+
+def build_reader(node, work, shared=None):
+    """the real mokapot reader for a tree (`shared`: the caller's frames, by position, for leaves with a `src`)"""
     from mokapot.streaming import ComputedTabularDataReader, JoinedTabularDataReader
     from mokapot.tabular_data import ColumnMappedReader, DataFrameReader, TabularDataReader
 
@@ -253,7 +299,8 @@ def build_reader(node, work):
         p = work.path(node["suffix"])
         sep = node.get("sep", "\t")
         make_df(node["names"], node["types"], node["rows"]).to_csv(p, sep=sep, index=False)
-        return TabularDataReader.from_path(p) if sep == "\t" else TabularDataReader.from_path(p, sep=sep)
+        kw = {"text_columns": list(node["text_cols"])} if node.get("text_cols") else {}
+        return TabularDataReader.from_path(p, **kw) if sep == "\t" else TabularDataReader.from_path(p, sep=sep, **kw)
     if t == "pq":
         p = work.path(".parquet")
         if node.get("pidx"):
@@ -271,6 +318,8 @@ def build_reader(node, work):
         pq.write_table(tab, p, row_group_size=node["rg"])
         return TabularDataReader.from_path(p)
     if t == "frame":
+        if shared is not None and "src" in node:
+            return DataFrameReader(shared[node["src"]])
         return DataFrameReader(make_df(node["names"], node["types"], node["rows"], node["index"], node["obj"]))
     if t == "series":
         ser = make_series([r[0] for r in node["rows"]], node["types"][0], node["obj"])
@@ -289,12 +338,14 @@ def build_reader(node, work):
         sub = node["sub"]
         if sub["t"] in ("csv", "pq") and node.get("via_from_path", True):
             # exercise TabularDataReader.from_path(..., column_map=...)
-            inner = build_reader(sub, work)
+            inner = build_reader(sub, work, shared)
             kw = {"sep": sub["sep"]} if sub.get("sep", "\t") != "\t" else {}
+            if sub.get("text_cols"):
+                kw["text_columns"] = list(sub["text_cols"])
             return TabularDataReader.from_path(inner.file_name, column_map=dict(node["map"]), **kw)
-        return ColumnMappedReader(build_reader(sub, work), dict(node["map"]))
+        return ColumnMappedReader(build_reader(sub, work, shared), dict(node["map"]))
     if t == "joined":
-        return JoinedTabularDataReader([build_reader(s, work) for s in node["subs"]])
+        return JoinedTabularDataReader([build_reader(s, work, shared) for s in node["subs"]])
     if t == "computed":
         fn = node["fn"]
         if fn[0] == "const":
@@ -306,12 +357,14 @@ def build_reader(node, work):
         else:
             name, a = fn[1], fn[2]
             f = lambda df: df[name].to_numpy() + a * np.asarray(df.index, dtype="int64")  # noqa: E731
-        return ComputedTabularDataReader(build_reader(node["sub"], work), node["col"], np.dtype("int64"), f)
+        return ComputedTabularDataReader(build_reader(node["sub"], work, shared), node["col"], np.dtype("int64"), f)
     raise AssertionError(t)
 
 
-def wire_tree(node):
+def wire_tree(node, shared=False):
     t = node["t"]
+    if shared and t == "frame" and "src" in node:
+        return [Atom("src"), node["src"]]
     if t == "csv":
         return [Atom("csv"), node["names"], [[Atom(cell_atom(v)) for v in r] for r in node["rows"]]]
     if t == "pq":
@@ -327,9 +380,9 @@ def wire_tree(node):
     if t == "array":
         return [Atom("array"), node["names"][0], [Atom(cell_atom(r[0])) for r in node["rows"]]]
     if t == "mapped":
-        return [Atom("mapped"), wire_tree(node["sub"]), [[k, v] for k, v in node["map"].items()]]
+        return [Atom("mapped"), wire_tree(node["sub"], shared), [[k, v] for k, v in node["map"].items()]]
     if t == "joined":
-        return [Atom("joined"), [wire_tree(s) for s in node["subs"]]]
+        return [Atom("joined"), [wire_tree(s, shared) for s in node["subs"]]]
     if t == "computed":
         fn = node["fn"]
         if fn[0] == "const":
@@ -338,7 +391,7 @@ def wire_tree(node):
             f = [Atom("affine"), fn[1], fn[2]]
         else:
             f = [Atom("addcol"), fn[1], fn[2]]
-        return [Atom("computed"), wire_tree(node["sub"]), node["col"], f]
+        return [Atom("computedp" if computed_none_ok() else "computed"), wire_tree(node["sub"], shared), node["col"], f]
     raise AssertionError(t)
 
 
@@ -521,8 +574,9 @@ def gen_tree(rng, nmax, allow_pidx=True, force_n=None):
 def gen_cols(rng, tree):
     names = table_of(tree)[0]
     r = rng.random()
-    if r < 0.25 and tree["t"] != "computed":
-        if accepts_none(tree) or rng.random() < 0.15:
+    if r < 0.25:
+        # (third pass: also for a top-level computed-column reader — `columns=None` means all columns)
+        if accepts_none(tree) or computed_none_ok() or rng.random() < 0.15:
             return None
         r = 0.25 + 0.75 * rng.random()
     if r < 0.32:
@@ -575,8 +629,8 @@ def gen_reader_case(rng, nmax=12, force_n=None):
 def expected_select(tree, cols):
     names, idx, rows = table_of(tree)
     if cols is None:
-        if not accepts_none(tree):
-            return None
+        # third pass: `columns=None` asks for all columns of ANY reader — also of a computed-column reader (the
+        # unchanged code raises there: finding `computed-reader-columns-none`)
         return (names, [(i, list(zip(names, r))) for i, r in zip(idx, rows)])
     pos = [names.index(c) for c in cols]
     return (list(cols), [(i, [(names[p], r[p]) for p in pos]) for i, r in zip(idx, rows)])
@@ -622,12 +676,19 @@ def run_impl_reader(case, work):
     return ("ok", whole, chunks, colnames, again)
 
 
+NONE_SIG = "computed-reader-columns-none"
+NONE_CLAUSE = ("`columns=None` (the default of read() / get_chunked_data_iterator(): all columns) is refused by "
+               "ComputedTabularDataReader and by every reader that hands None on to one: "
+               "`_reader_columns(None)` iterates over None (streaming.py:125-128) — the property promises the whole "
+               "table, in chunks as in one piece, from ANY reader")
+
+
 def reader_spec_verdict(case, impl):
     """the property, restated: None if it holds, else (signature, clause, expected)"""
     exp = expected_select(case["tree"], case["cols"])
     shape = shape_of(case["tree"])
-    if exp is None:  # ComputedTabularDataReader with columns=None: no promise
-        return None
+    if impl[0] == "raise" and case["cols"] is None and not accepts_none(case["tree"]):
+        return (NONE_SIG, NONE_CLAUSE + ": " + impl[2][:160], exp)
     if impl[0] == "raise":
         return (f"reader-exception:{impl[1]}:{shape}", "the reader raised on a well-formed request: " + impl[2], exp)
     _, whole, chunks, colnames = impl[:4]
@@ -740,6 +801,9 @@ def eval_reader_cases(chk, cases, work, tally=True):
             chk.count("columns", "None" if cs["cols"] is None else ("empty" if not cs["cols"] else "subset"))
             for sp in _seps_of(cs["tree"]):
                 chk.count("text_reader_sep", repr(sp))
+            for f_ in _file_leaves(cs["tree"]):
+                if f_["t"] == "csv":
+                    chk.count("text_reader_text_columns", len(f_.get("text_cols") or []))
             for b in _bases_of(cs["tree"]):
                 chk.count("base_reader", b)
             chk.count("reader_depth", _depth(cs["tree"]))
@@ -747,16 +811,18 @@ def eval_reader_cases(chk, cases, work, tally=True):
             chk.count("parquet_index_in_file", _pidx_of(cs["tree"]))
             chk.count("rename_map_reuses_old_names", _swap_of(cs["tree"]))
         exp = expected_select(cs["tree"], cs["cols"])
-        if exp is None:
-            # columns=None on a computed-column reader: typeguard / TypeError in both paths, no promise
-            if impl[0] == "raise":
-                chk.reject("computed-reader-columns-None")
-                if r_read != "reject" or r_chunked != "reject":
-                    chk.corr_break("tab-read", dict(case=jsonable_case(cs), impl="raises", model=str(r_read)[:200]))
-            else:
-                chk.corr_break("tab-read", dict(case=jsonable_case(cs), impl="accepted columns=None",
-                                               model=str(r_read)[:200]))
+        if impl[0] == "raise" and cs["cols"] is None and not accepts_none(cs["tree"]):
+            # third pass: a violation of the property (finding `computed-reader-columns-none`), no longer "no
+            # promise"; the model of such code (`computedReader`, the class before c6f4cd0) refuses the request too
+            if tally:
+                chk.count("computed_reader_columns_None", "raises")
+            chk.spec_violation(NONE_SIG, dict(case=jsonable_case(cs), clause=NONE_CLAUSE, impl=_short(impl),
+                                              expected=_short(("ok", exp, None))))
+            if r_read != "reject" or r_chunked != "reject":
+                chk.corr_break("tab-read", dict(case=jsonable_case(cs), impl="raises", model=str(r_read)[:200]))
             continue
+        if tally and cs["cols"] is None and not accepts_none(cs["tree"]):
+            chk.count("computed_reader_columns_None", "answers")
         # Lean's spec evaluation must agree with the Python restatement (both are "the spec")
         if r_spec == "reject" or parse_model_df(r_spec) != exp:
             raise RuntimeError(f"spec-select (Lean) and the Python restatement disagree on {cs}")
@@ -1949,6 +2015,346 @@ def exhaustive_calls(nmax):
 
 
 # ----------------------------------------------------------------------------------------------------------
+# third pass: histories of uses of reader objects over frames the caller keeps (op tab-uses)
+# ----------------------------------------------------------------------------------------------------------
+def _src_leaves(node, out=None):
+    out = [] if out is None else out
+    t = node["t"]
+    if t in BASES:
+        if "src" in node:
+            out.append(node["src"])
+    elif t == "joined":
+        for s_ in node["subs"]:
+            _src_leaves(s_, out)
+    else:
+        _src_leaves(node["sub"], out)
+    return out
+
+
+def _file_leaves(node, out=None):
+    out = [] if out is None else out
+    t = node["t"]
+    if t in BASES:
+        if t in ("csv", "pq"):
+            out.append(node)
+    elif t == "joined":
+        for s_ in node["subs"]:
+            _file_leaves(s_, out)
+    else:
+        _file_leaves(node["sub"], out)
+    return out
+
+
+def gen_shared_case(rng, nmax=7):
+    """1-2 frames the caller keeps; 1-3 reader objects over them (plain, renamed — half of the maps permute old names
+    —, computed column, joined with another frame / a file, nested); a program of 3-7 calls on these objects
+    (get_column_names / read / chunk iterator; `columns=None` in 45% of the requests); afterwards the caller's frames
+    are compared with pristine copies"""
+    n = min(nmax, rng.choice([0, 1, 2, 2, 3, 3, 4, 5, 7]))
+    custom = rng.random() < 0.3
+    index = rng.sample(range(0, 40), n) if custom else list(range(n))
+    nsrc = rng.choice([1, 1, 2])
+    pool = list(NAME_POOL)
+    rng.shuffle(pool)
+    srcs = []
+    for k in range(nsrc):
+        names = [pool.pop() for _ in range(rng.choice([1, 2, 2, 3]))]
+        node = gen_base(rng, "frame", names, n, index)
+        if node["t"] != "frame":  # (gen_base may turn a one-column frame into a series / array reader)
+            node = {"t": "frame", "names": names, "types": node["types"], "rows": node["rows"], "index": list(index),
+                    "obj": False}
+        node["src"] = k
+        srcs.append(node)
+    extra_names = ["Z1", "Z2", "Z3", "Z4", "Z5", "Z6"]
+
+    def rename_map(nm):
+        nm = list(nm)
+        if len(nm) >= 2 and rng.random() < 0.5:
+            sub = rng.sample(nm, rng.randint(2, len(nm)))
+            return dict(zip(sub, sub[1:] + sub[:1]))
+        m = {x: extra_names[j] for j, x in enumerate(nm) if rng.random() < 0.6}
+        return m or {nm[0]: "Z6"}
+
+    def leaf(k):
+        return dict(srcs[k])
+
+    def file_leaf():
+        names = [pool.pop()]
+        b = gen_base(rng, rng.choice(["csv", "pq"]), names, n)
+        return b
+
+    def tree():
+        k = rng.randrange(nsrc)
+        form = rng.choice(["src", "mapped", "mapped", "mapped", "computed", "computed-mapped", "joined", "joined",
+                           "mapped-joined", "mapped-mapped", "joined-mapped"])
+        if form == "src":
+            return leaf(k)
+        if form in ("mapped", "mapped-mapped", "computed-mapped"):
+            t_ = {"t": "mapped", "sub": leaf(k), "map": rename_map(srcs[k]["names"])}
+            if form == "mapped-mapped":
+                t_ = {"t": "mapped", "sub": t_, "map": rename_map(table_of(t_)[0])}
+            if form == "computed-mapped":
+                t_ = {"t": "computed", "sub": t_, "col": "k", "fn": ["affine", rng.choice([1, 10, -3]), 5]}
+            return t_
+        if form == "computed":
+            return {"t": "computed", "sub": leaf(k), "col": "k",
+                    "fn": rng.choice([["const", 7], ["affine", 10, 1]])}
+        # joins: the caller's frame with the other frame or with a file (files carry labels 0..n-1)
+        first = leaf(k)
+        if form == "joined-mapped":
+            first = {"t": "mapped", "sub": first, "map": rename_map(srcs[k]["names"])}
+        if nsrc == 2 and rng.random() < 0.6:
+            other = leaf(1 - k)
+        elif not custom and pool:
+            other = file_leaf()
+        elif nsrc == 2:
+            other = leaf(1 - k)
+        else:
+            other = None
+        subs = [first] + ([other] if other is not None else [])
+        if rng.random() < 0.5:
+            subs.reverse()
+        t_ = {"t": "joined", "subs": subs}
+        if form == "mapped-joined":
+            t_ = {"t": "mapped", "sub": t_, "map": rename_map(table_of(t_)[0])}
+        return t_
+
+    readers = [tree() for _ in range(rng.choice([1, 2, 2, 3]))]
+    prog = []
+    for _ in range(rng.randint(3, 7)):
+        i = rng.randrange(len(readers))
+        names = table_of(readers[i])[0]
+        r = rng.random()
+        if r < 0.12:
+            prog.append([i, "names"])
+            continue
+        if rng.random() < 0.45 and (accepts_none(readers[i]) or computed_none_ok() or rng.random() < 0.1):
+            cols = None
+        else:
+            cols = rng.sample(names, rng.randint(0, len(names)))
+            if rng.random() < 0.3:
+                cols = list(names)
+        if r < 0.6:
+            prog.append([i, "read", cols])
+        else:
+            prog.append([i, "chunked", rng.choice([1, 2, 3, max(1, n), n + 1]), cols])
+    if not any(u[1] == "read" and u[2] is None for u in prog) and rng.random() < 0.7:
+        cand = [i for i in range(len(readers)) if accepts_none(readers[i]) or computed_none_ok()]
+        if cand:
+            prog.insert(rng.randrange(len(prog)), [rng.choice(cand), "read", None])
+    return {"kind": "shared", "srcs": srcs, "readers": readers, "prog": prog}
+
+
+def run_impl_shared(case, work):
+    """-> (observations, caller's frames afterwards (canonical), pristine copies (canonical), files changed?)
+    observation = ('names', [..]) | ('frame', canon, k|None) | ('frames', [canon..]) | ('raise', text)"""
+    with warnings.catch_warnings():
+        warnings.simplefilter("ignore")
+        frames = [make_df(s_["names"], s_["types"], s_["rows"], s_["index"], s_["obj"]) for s_ in case["srcs"]]
+        pristine = [canon_df(make_df(s_["names"], s_["types"], s_["rows"], s_["index"], s_["obj"]))
+                    for s_ in case["srcs"]]
+        try:
+            readers = [build_reader(t_, work, frames) for t_ in case["readers"]]
+        except Exception as e:
+            raise RuntimeError(f"fixture construction failed: {e!r}")
+        files = []
+        for rd in readers:
+            stack = [rd]
+            while stack:
+                x = stack.pop()
+                if hasattr(x, "file_name"):
+                    files.append(Path(x.file_name))
+                for attr in ("reader",):
+                    if hasattr(x, attr):
+                        stack.append(getattr(x, attr))
+                if hasattr(x, "readers"):
+                    stack.extend(x.readers)
+        before = [f.read_bytes() for f in files]
+        obs = []
+        for u in case["prog"]:
+            rd = readers[u[0]]
+            try:
+                if u[1] == "names":
+                    obs.append(("names", [str(x) for x in rd.get_column_names()]))
+                elif u[1] == "read":
+                    df = rd.read(u[2])
+                    who = [k for k, f in enumerate(frames) if f is df]
+                    obs.append(("frame", canon_df(df), who[0] if who else None))
+                else:
+                    obs.append(("frames", [canon_df(ch) for ch in rd.get_chunked_data_iterator(u[2], u[3])]))
+            except Exception as e:
+                obs.append(("raise", f"{type(e).__name__}: {e}"[:200]))
+        after = []
+        for f in frames:
+            try:
+                after.append(canon_df(f))
+            except Exception as e:
+                after.append(("?", f"{type(e).__name__}: {e}"[:200]))
+        files_changed = [str(f.suffix) for f, b in zip(files, before) if f.read_bytes() != b]
+    return obs, after, pristine, files_changed
+
+
+def shared_spec_verdict(case, impl):
+    """None | (signature, clause, step).  Every call must observe what the property promises about the table the
+    reader denotes over the frames AS THEY WERE HANDED IN; the caller's frames and the files must be what they were."""
+    obs, after, pristine, files_changed = impl
+    for k, (u, o) in enumerate(zip(case["prog"], obs)):
+        tree = case["readers"][u[0]]
+        shape = shape_of(tree)
+        names = table_of(tree)[0]
+        cols = None if u[1] == "names" else u[-1]
+        if o[0] == "raise":
+            if cols is None and u[1] != "names" and not accepts_none(tree):
+                return (NONE_SIG, NONE_CLAUSE + ": " + o[1][:160], k)
+            return (f"shared-source:exception:{u[1]}",
+                    f"call {k} ({u[1]} on {shape}) raised on a well-formed request: {o[1]}", k)
+        if u[1] == "names":
+            if o[1] != names:
+                return ("shared-source:names", f"call {k} on {shape}: get_column_names() is {o[1]}, the table's "
+                        f"columns are {names}", k)
+            continue
+        exp = expected_select(tree, cols)
+        if u[1] == "read":
+            if o[1] != exp:
+                return ("shared-source:read",
+                        f"call {k} on {shape}: read({cols}) is not the table restricted to the requested columns (after "
+                        f"{k} earlier calls on reader objects over the same frames)", k)
+        else:
+            cat_rows = [r for ch in o[1] for r in ch[1]]
+            if cat_rows != exp[1] or any(ch[0] != exp[0] for ch in o[1]):
+                return ("shared-source:chunks",
+                        f"call {k} on {shape}: the chunks of get_chunked_data_iterator({u[2]}, {cols}) do not concatenate to the "
+                        f"table restricted to the requested columns (after {k} earlier calls)", k)
+    for j, (a, b) in enumerate(zip(after, pristine)):
+        if a != b:
+            shapes = sorted({shape_of(t_) for t_ in case["readers"] if j in _src_leaves(t_)})
+            return ("shared-source:caller-frame-changed",
+                    f"the caller's frame number {j} (read through {shapes}) is no longer what was handed to "
+                    f"DataFrameReader: columns {a[0]} (handed in: {b[0]})", None)
+    if files_changed:
+        return ("shared-source:file-changed", f"reading changed the bytes of a source file ({files_changed})", None)
+    return None
+
+
+def shared_wire(case):
+    frames = [[s_["names"], list(s_["index"]), [[Atom(cell_atom(v)) for v in r] for r in s_["rows"]]]
+              for s_ in case["srcs"]]
+    rds = [wire_tree(t_, shared=True) for t_ in case["readers"]]
+    prog = []
+    for u in case["prog"]:
+        if u[1] == "names":
+            prog.append([u[0], [Atom("names")]])
+        elif u[1] == "read":
+            prog.append([u[0], [Atom("read"), Atom("none") if u[2] is None else list(u[2])]])
+        else:
+            prog.append([u[0], [Atom("chunked"), u[2], Atom("none") if u[3] is None else list(u[3])]])
+    return req("tab-uses", frames, rds, prog)
+
+
+def parse_model_obs(v):
+    if v == "raised":
+        return ("raise",)
+    tag = v[0]
+    if tag == "names":
+        return ("names", [a_str(x) for x in v[1]])
+    if tag == "frame":
+        return ("frame", parse_model_df(v[1]), None if v[2] == "none" else int(v[2]))
+    return ("frames", [parse_model_df(x) for x in v[1]])
+
+
+def eval_shared_cases(chk, cases, work, tally=True):
+    resp = common.driver_batch([shared_wire(cs) for cs in cases])
+    for cs, r in zip(cases, resp):
+        if "bad-" in r:
+            raise RuntimeError(f"driver rejected the request of case {cs}: {r}")
+        model = dec(r)
+        impl = run_impl_shared(cs, work)
+        whole = [u for u in cs["prog"] if u[1] == "read" and u[2] is None]
+        first_whole = next((k for k, u in enumerate(cs["prog"]) if u[1] == "read" and u[2] is None), None)
+        if tally:
+            shapes = tuple(sorted(shape_of(t_) for t_ in cs["readers"]))
+            nontrivial = first_whole is not None and first_whole < len(cs["prog"]) - 1
+            chk.case(None, ("shared", shapes, len(cs["srcs"][0]["rows"]), len(cs["prog"]), len(whole))
+                     if nontrivial else None,
+                     sample=dict(readers=list(shapes), frames_kept_by_caller=len(cs["srcs"]),
+                                 rows=len(cs["srcs"][0]["rows"]), calls=[u[1] for u in cs["prog"]],
+                                 whole_reads=len(whole)))
+            chk.count("shared_readers_per_case", len(cs["readers"]))
+            chk.count("shared_calls_after_first_whole_read",
+                      "no-whole-read" if first_whole is None else min(len(cs["prog"]) - 1 - first_whole, 4))
+            chk.count("shared_rename_map_reuses_old_names", any(_swap_of(t_) for t_ in cs["readers"]))
+            chk.count("shared_source_read_by_several_objects",
+                      any(sum(1 for t_ in cs["readers"] if j in _src_leaves(t_)) > 1 for j in range(len(cs["srcs"]))))
+            chk.count("shared_file_leaves", len([f for t_ in cs["readers"] for f in _file_leaves(t_)]))
+            for t_ in cs["readers"]:
+                chk.count("shared_reader", shape_of(t_))
+            for o in impl[0]:
+                if o[0] == "frame":
+                    chk.count("read_returns_the_callers_object", o[2] is not None)
+        verdict = shared_spec_verdict(cs, impl)
+        if verdict is not None and verdict[0] != NONE_SIG:
+            sig, clause, step = verdict
+            chk.spec_violation(sig, dict(case=jsonable_case(cs), clause=clause, step=step,
+                                         impl=[(o[0], _short_obs(o)) for o in impl[0]],
+                                         callers_frames_after=[a[0] for a in impl[1]]))
+            continue
+        if verdict is not None:
+            chk.spec_violation(NONE_SIG, dict(case=jsonable_case(cs), clause=verdict[1], step=verdict[2]))
+            if tally:
+                chk.count("computed_reader_columns_None", "raises")
+        # the model: observation by observation, then the caller's frames
+        m_obs = [parse_model_obs(x) for x in model[0]]
+        m_after = [parse_model_df(x) for x in model[1]]
+        for k, (o, m) in enumerate(zip(impl[0], m_obs)):
+            same = (o[0] == m[0]) and (o[0] == "raise" or o[1:] == m[1:])
+            if not same:
+                chk.corr_break("tab-uses", dict(case=jsonable_case(cs), step=k, impl=str(o)[:500], model=str(m)[:500]))
+                break
+        else:
+            if m_after != impl[1]:
+                chk.corr_break("tab-uses", dict(case=jsonable_case(cs), step="callers-frames",
+                                                impl=str(impl[1])[:500], model=str(m_after)[:500]))
+
+
+def _short_obs(o):
+    if o[0] == "frame":
+        return {"columns": o[1][0], "index": [r[0] for r in o[1][1]], "rows": [[c[1] for c in r[1]] for r in o[1][1]],
+                "is_callers_object": o[2]}
+    if o[0] == "frames":
+        return [{"columns": ch[0], "index": [r[0] for r in ch[1]]} for ch in o[1]]
+    return o[1]
+
+
+def exhaustive_shared(plen):
+    """one frame kept by the caller (2 rows, columns a, b), a second one (column d); small sets of reader objects;
+    every program of `plen` calls over a fixed alphabet of calls"""
+    rows = [[1, "x"], [2, "y"]]
+    s0 = {"t": "frame", "names": ["a", "b"], "types": ["int", "str"], "rows": rows, "index": [0, 1], "obj": False,
+          "src": 0}
+    s1 = {"t": "frame", "names": ["d"], "types": ["float"], "rows": [[0.5], [1.5]], "index": [0, 1], "obj": False,
+          "src": 1}
+    swap = {"t": "mapped", "sub": s0, "map": {"a": "b", "b": "a"}}
+    plain = {"t": "mapped", "sub": s0, "map": {"a": "x"}}
+    comp = {"t": "computed", "sub": s0, "col": "k", "fn": ["affine", 10, 1]}
+    join = {"t": "joined", "subs": [s0, s1]}
+    sets = [[swap], [plain, s0], [comp, swap], [join, plain], [{"t": "mapped", "sub": join, "map": {"a": "d", "d": "a"}}]]
+    cases = []
+    for rs in sets:
+        alphabet = []
+        for i, t_ in enumerate(rs):
+            names = table_of(t_)[0]
+            alphabet += [[i, "read", None], [i, "read", [names[-1], names[0]]], [i, "chunked", 1, None],
+                         [i, "chunked", 2, list(names)], [i, "names"]]
+        alphabet = [u for u in alphabet if not (u[-1] is None and u[1] != "names"
+                                                and not (accepts_none(rs[u[0]]) or computed_none_ok()))]
+        for prog in itertools.product(alphabet, repeat=plen):
+            if not any(u[1] == "read" and u[2] is None for u in prog[:-1]):
+                continue
+            cases.append({"kind": "shared", "srcs": [s0, s1], "readers": rs, "prog": [list(u) for u in prog]})
+    return cases
+
+
+# ----------------------------------------------------------------------------------------------------------
 # out-of-domain requests: tallied, never a verdict
 # ----------------------------------------------------------------------------------------------------------
 def rejected_requests(chk, rng, work, n):
@@ -2008,6 +2414,52 @@ def rejected_requests(chk, rng, work, n):
                                                         cols=cols),
                                               impl=f"raises {raised}" if raised else "answers",
                                               model="reject" if model_rejects else "answers"))
+
+
+# ----------------------------------------------------------------------------------------------------------
+# third pass: the trusted value domain, probed on every run (informational: tallied, never a verdict)
+# ----------------------------------------------------------------------------------------------------------
+def trusted_domain_probes(chk, work):
+    """Three behaviours of the unchanged code that lie outside the generated value domain (DESIGN: trusted / not
+    modelled) are observed on fixed inputs on every run and written to the evidence, so that they stay visible:
+    per-chunk type inference of text files without `text_columns`, the 1-ULP float parse of `pd.read_csv`, and the
+    Records buffer kind refusing several records in one append."""
+    from mokapot.tabular_data import TableType, TabularDataReader, TabularDataWriter
+
+    out = {}
+    with warnings.catch_warnings():
+        warnings.simplefilter("ignore")
+        p = work.path(".csv")
+        p.write_text("a\n1\n2\nz\n3\n")
+        for label, kw in (("without-text_columns", {}), ("with-text_columns", {"text_columns": ["a"]})):
+            r = TabularDataReader.from_path(p, **kw)
+            whole = [cell_atom(v) for v in r.read()["a"].tolist()]
+            cat = [cell_atom(v) for ch in r.get_chunked_data_iterator(2) for v in ch["a"].tolist()]
+            verdict = "chunks-equal-read" if whole == cat else "chunks-differ-from-read"
+            chk.count("trusted_domain_probe", f"mixed-text-column:{label}:{verdict}")
+            out[f"text column [1,2,z,3], chunk size 2, {label}"] = dict(read=whole, chunks=cat)
+        vals = np.random.default_rng(0).standard_normal(4000) * 10.0 ** np.random.default_rng(1).integers(-30, 30, 4000)
+        p2 = work.path(".csv")
+        w = TabularDataWriter.from_suffix(p2, ["x"])
+        w.write(pd.DataFrame({"x": vals}))
+        back = w.get_associated_reader().read()["x"].to_numpy()
+        off = int((back != vals).sum())
+        worst = float(np.max(np.abs(back - vals) / np.spacing(np.abs(vals)))) if off else 0.0
+        chk.count("trusted_domain_probe", "text-float-roundtrip:" + ("exact" if off == 0 else "off-by-at-most-%g-ulp" % worst))
+        out["4000 float64 values spread over 1e-30..1e30 written as text and read back"] = dict(changed=off, worst_ulp=worst)
+        p3 = work.path(".csv")
+        w3 = TabularDataWriter.from_suffix(p3, ["a", "b"], buffer_size=4, buffer_type=TableType.Records)
+        recs = pd.DataFrame({"a": [1, 2], "b": [0.5, 1.5]}).to_records(index=False)
+        try:
+            with w3:
+                w3.append_data(recs)
+            got = w3.get_associated_reader().read()
+            res = "accepted:" + ("rows-kept" if got["a"].tolist() == [1, 2] else "rows-changed")
+        except Exception as e:
+            res = "refused:" + type(e).__name__
+        chk.count("trusted_domain_probe", "records-buffer-several-records-in-one-append:" + res)
+        out["Records buffer, one append of a recarray with 2 records"] = res
+    chk.extra["trusted_domain_probes"] = out
 
 
 # ----------------------------------------------------------------------------------------------------------
@@ -2103,7 +2555,12 @@ def exhaustive_writers(nmax):
 # shrinking
 # ----------------------------------------------------------------------------------------------------------
 def minimise(chk, work):
-    if not chk.spec_violations:
+    # (the first violation other than the refusal of columns=None is moved to the front and shrunk)
+    for k_, (sig_, _) in enumerate(chk.spec_violations):
+        if sig_ != NONE_SIG:
+            chk.spec_violations.insert(0, chk.spec_violations.pop(k_))
+            break
+    else:
         return
     sig, info = chk.spec_violations[0]
     case = info.get("case")
@@ -2147,7 +2604,7 @@ def minimise(chk, work):
                                                     impl=_short(impl[:3]) if impl[0] == "ok" else _short(impl),
                                                     expected=_short(("ok", v[2], None)),
                                                     shrunk_from_rows=len(case["rows"])))
-        elif case["kind"] == "calls":
+        elif case["kind"] in ("calls", "shared"):
             return
         elif case["kind"] == "auto":
             def fails(steps):
@@ -2203,7 +2660,7 @@ def corpus_cases():
 def run_cases(chk, cases, work, tally=True, batch=1500):
     if os.environ.get("VERIF_C13_TIMING"):
         import time as _t
-        for kind in ("reader", "writer", "write1", "auto", "calls"):
+        for kind in ("reader", "writer", "write1", "auto", "calls", "shared"):
             sub = [c for c in cases if c["kind"] == kind]
             t0 = _t.time()
             _run_cases(chk, sub, work, tally, batch)
@@ -2228,6 +2685,9 @@ def _run_cases(chk, cases, work, tally=True, batch=1500):
     cl = [c for c in cases if c["kind"] == "calls"]
     for i in range(0, len(cl), batch):
         eval_calls_cases(chk, cl[i:i + batch], work, tally)
+    sh = [c for c in cases if c["kind"] == "shared"]
+    for i in range(0, len(sh), batch):
+        eval_shared_cases(chk, sh[i:i + batch], work, tally)
 
 
 def search(chk):
@@ -2240,10 +2700,11 @@ def search(chk):
         cases += [gen_write1_case(rng, 8) for _ in range(400 * chk.budget_mult // 5)]
         cases += [gen_auto_case(rng, 8) for _ in range(800 * chk.budget_mult // 5)]
         cases += [gen_calls_case(rng, 8) for _ in range(800 * chk.budget_mult // 5)]
+        cases += [gen_shared_case(rng) for _ in range(800 * chk.budget_mult // 5)]
         run_cases(chk, cases, work)
-        if not chk.spec_violations:
+        if not [v for v in chk.spec_violations if v[0] != NONE_SIG]:
             run_cases(chk, exhaustive_readers(4) + exhaustive_writers(4) + exhaustive_write1(3) + exhaustive_auto(4)
-                      + exhaustive_calls(3), work)
+                      + exhaustive_calls(3) + exhaustive_shared(3), work)
         minimise(chk, work)
     finally:
         work.close()
@@ -2263,6 +2724,7 @@ def main(chk, args):
         cases += [gen_write1_case(rng) for _ in range(80 if quick else 1200)]
         cases += [gen_auto_case(rng) for _ in range(90 if quick else 2200)]
         cases += [gen_calls_case(rng) for _ in range(100 if quick else 2500)]
+        cases += [gen_shared_case(rng) for _ in range(140 if quick else 2000)]
         for _ in range(3 if quick else 40):
             cases.append(gen_reader_case(rng, force_n=rng.choice([150, 257, 400] if quick else
                                                                  [150, 257, 400, 1000, 2500, 5000])))
@@ -2272,9 +2734,11 @@ def main(chk, args):
         cases += [gen_writer_case(rng, big=b) for b in bigs]
         run_cases(chk, cases, work)
         rejected_requests(chk, rng, work, 70 if quick else 600)
+        trusted_domain_probes(chk, work)
         ex = exhaustive_readers(2 if quick else 5) + exhaustive_writers(3 if quick else 5)
         ex += exhaustive_write1(2 if quick else 4) + (exhaustive_auto(2, 3) if quick else exhaustive_auto(5))
         ex += exhaustive_calls(2 if quick else 4)
+        ex += exhaustive_shared(2 if quick else 3)
         run_cases(chk, ex, work)
         chk.extra["exhaustive_sweep"] = (
             f"{len(ex)} cases: rows 0..{2 if quick else 5} x chunk sizes 1..n+1 x (text, Parquet with every "
@@ -2316,6 +2780,19 @@ def main(chk, args):
         "a Parquet file with a stored pandas index has no counterpart in the Lean PqFile (rows labelled 0..n-1): such "
         "fixtures are judged by the specification (two consistent views accepted) and compared with the model only "
         "when the implementation labels the rows 0..n-1 over the data columns",
+    ]
+    chk.assumptions += [
+        "objects (third pass, Model/TabularShared.lean): a chunk (df.iloc[a:b], parser / Arrow output), df[columns], "
+        "df.rename(inplace=False), pd.concat and df.assign build new frame objects and, pandas >= 3 being "
+        "copy-on-write, writing into one of them never reaches the frame it was taken from; only "
+        "DataFrameReader.read(None) hands out the caller's object (compared on every read: `result is frame`)",
+        "the computed-column reader is wired as " + ("computedReaderP, the class since c6f4cd0 (the code under test "
+                                                    "accepts columns=None)" if computed_none_ok() else
+                                                    "computedReader, the class before c6f4cd0 (columns=None raises: "
+                                                    "spec violation computed-reader-columns-none)"),
+        "text files: a column not declared in text_columns= is type-inferred by pandas per chunk, and float cells are "
+        "parsed by pandas' default (not round-trip) parser — both outside the generated value domain; their "
+        "behaviour on fixed inputs is recorded under trusted_domain_probes on every run",
     ]
     chk.finish(build, RULE, search=search, lc=lc,
                trusted_extra=["pandas read_csv/to_csv/concat/iloc/rename, pyarrow Parquet read/write/iter_batches, "
